@@ -14,6 +14,16 @@ VERIF = os.path.dirname(os.path.dirname(os.path.abspath(__file__)))
 TEMPLATES = [os.path.join(VERIF, 'contracts', 'verus', f) for f in ('lib.vt', 'extend.vt', 'iter.vt', 'drain.vt', 'tail.vt')]
 RLIMIT = 60
 
+# extend.vt (extend_from_slice + slices_uninit_mut, ~30-50 s of solver time) is only generated for the properties
+# that have clauses or built-in obligations in it
+EXTEND_PROPS = {'C01', 'C03', 'C04', 'C11', 'C14', 'C19'}
+
+
+def templates_for(prop):
+    if prop in EXTEND_PROPS:
+        return list(TEMPLATES)
+    return [t for t in TEMPLATES if not t.endswith('extend.vt')]
+
 # built-in obligation classes -> properties they serve
 BUILTIN_CLASSES = [
     (re.compile(r'arithmetic underflow/overflow|possible overflow|underflow'), ['C11', 'C19'], 'arithmetic overflow/underflow freedom'),
